@@ -97,11 +97,11 @@ impl<A: Actor> Addr<A> {
     }
 
     pub fn running(&self) -> bool {
-        self.running.peek().is_none()
+        !crate::context::latch_resolved(&self.running)
     }
 
     pub fn stopped(&self) -> bool {
-        self.running.peek().is_some()
+        crate::context::latch_resolved(&self.running)
     }
 
     pub async fn call<M: Message>(&self, msg: M) -> Result<M::Response>
